@@ -41,7 +41,18 @@ var abiOf = map[string]struct{ abi, audit string }{
 	"i386":    {"i386", "I386"},
 	"arm":     {"arm", "ARM"},
 	"aarch64": {"aarch64", "AARCH64"},
+	// no table in the library today; a table added later is compared with the oracle recorded for the port
+	"riscv64": {"riscv64", "RISCV64"}, "loongarch64": {"loongarch64", "LOONGARCH64"}, "ppc64": {"ppc64", "PPC64"}, "ppc64le": {"ppc64le", "PPC64LE"},
+	"s390x": {"s390x", "S390X"}, "mips": {"mips", "MIPS"}, "mipsel": {"mipsel", "MIPSEL"}, "mips64": {"mips64", "MIPS64"}, "mipsel64": {"mipsel64", "MIPSEL64"},
+	"ppc": {"ppc", "PPC"}, "sparc64": {"sparc64", "SPARC64"},
 }
+
+// tableRequired: the architectures the property names as supported: their Info must carry a table.
+var tableRequired = map[string]bool{"x86_64": true, "x32": true, "i386": true, "arm": true, "aarch64": true}
+
+// goarchOf: the GOARCH spelling of a Linux architecture name, where the two differ (an alias key of that spelling is the
+// documented way to select the table from runtime.GOARCH).
+var goarchOf = map[string]string{"x86_64": "amd64", "i386": "386", "aarch64": "arm64", "loongarch64": "loong64", "mipsel": "mipsle", "mipsel64": "mips64le"}
 
 // auditOf gives the AUDIT_ARCH name for the table-less Info literals.
 var auditOf = map[string]string{
@@ -188,6 +199,8 @@ func runC12(e *Env) {
 			wantAudit = a.audit
 		} else if a, ok := auditOf[il.name]; ok {
 			wantAudit = a
+		} else if _, ok := or.AuditArch[strings.ToUpper(il.name)]; ok {
+			wantAudit = strings.ToUpper(il.name) // an architecture added later: AUDIT_ARCH_<NAME> of the kernel headers
 		}
 		idc, _ := il.idObj.(*types.Const)
 		if idc == nil {
@@ -216,7 +229,7 @@ func runC12(e *Env) {
 		// tables
 		a, hasABI := abiOf[il.name]
 		if il.table == nil && il.invTable == nil {
-			if hasABI {
+			if hasABI && tableRequired[il.name] {
 				r.Bad("E4.info", key+"/table", pos, fmt.Sprintf("architecture %q must have a syscall table but its Info has none", il.name))
 			} else {
 				r.OK("E4.info", key+"/table", pos, "table-less architecture (unsupported through GetInfo)")
@@ -397,6 +410,10 @@ func runC12(e *Env) {
 						okc = true
 					}
 				}
+			}
+			// an architecture beyond the documented classes: its own name, or its GOARCH spelling
+			if !okc && !tableRequired[il.name] && (k == il.name || k == goarchOf[il.name]) {
+				okc = true
 			}
 			r.Check(okc, "E4.alias", "arches/table-target/"+k, p.Pos(arches.Pos), "table-carrying target is the expected one",
 				fmt.Sprintf("key %q resolves to the table of %q, which is not an alias the package documents", k, il.name))
